@@ -2,43 +2,40 @@
 // Solver counter-example(s) produced by Kani's concrete playback; replay with
 //   ./check C10 --replay /verif/replay/cases/c10__q__u8___copy_lengths.rs
 
-/// Test generated for harness `c10::q::u8_::copy_lengths` 
-///
-/// Check for `assertion`: "assertion failed: d.get(q) == ref_get_u8 (& src, w, from + q - to)"
-
+// failed check (assertion): assertion failed: d.get(q) == ref_get_u8 (& src, w, from + q - to)
 #[test]
-fn kani_concrete_playback_copy_lengths_18148108528099533562() {
+fn kani_concrete_playback_copy_lengths_11846378742018836070() {
     let concrete_vals: Vec<Vec<u8>> = vec![
-        // 101
-        vec![101],
-        // 227
-        vec![227],
-        // 195
-        vec![195],
-        // 101
-        vec![101],
-        // 197
-        vec![197],
-        // 130
-        vec![130],
-        // 130
-        vec![130],
-        // 131
-        vec![131],
+        // 107
+        vec![107],
+        // 133
+        vec![133],
+        // 146
+        vec![146],
+        // 205
+        vec![205],
+        // 12
+        vec![12],
+        // 85
+        vec![85],
+        // 201
+        vec![201],
+        // 204
+        vec![204],
         // 1ul
         vec![1, 0, 0, 0, 0, 0, 0, 0],
-        // 32ul
-        vec![32, 0, 0, 0, 0, 0, 0, 0],
-        // 32ul
-        vec![32, 0, 0, 0, 0, 0, 0, 0],
-        // 0ul
-        vec![0, 0, 0, 0, 0, 0, 0, 0],
-        // 4ul
-        vec![4, 0, 0, 0, 0, 0, 0, 0],
-        // 9ul
-        vec![9, 0, 0, 0, 0, 0, 0, 0],
-        // 10ul
-        vec![10, 0, 0, 0, 0, 0, 0, 0],
+        // 23ul
+        vec![23, 0, 0, 0, 0, 0, 0, 0],
+        // 17ul
+        vec![17, 0, 0, 0, 0, 0, 0, 0],
+        // 2ul
+        vec![2, 0, 0, 0, 0, 0, 0, 0],
+        // 3ul
+        vec![3, 0, 0, 0, 0, 0, 0, 0],
+        // 14ul
+        vec![14, 0, 0, 0, 0, 0, 0, 0],
+        // 14ul
+        vec![14, 0, 0, 0, 0, 0, 0, 0],
     ];
     kani::concrete_playback_run(concrete_vals, crate::c10::q::u8_::copy_lengths);
 }
